@@ -111,6 +111,6 @@ CLAIM = dict(
     text="Rely/guarantee proofs on the real worker and producer (task copied under the lock, partition of function indices into files for every functionsPerFile in [0,2^32), "
          "done only with an empty slot), plus re-verification of the C03/C06 probe contracts on the output produced under pretty printing, module prefixing, multi-file/multi-thread "
          "emission (all translation units linked) and the gnu-ld data-segment mode (blob taken from the file the translator wrote).",
-    note="Schedules not explored; -g and -r not covered; thread-count independence of the file contents is corroborated on the real binary only (bounded).",
+    note="Schedules not explored; -g not covered; -r: the function digest covers exactly locals + code (SHA1 replaced by a recorder, SHA-1 itself trusted) and the static/dynamic split classifies every function once and static only on a digest match (<= 3 functions, bounded); thread-count independence of the file contents is corroborated on the real binary only (bounded).",
     technique="CBMC rely/guarantee contracts on the worker pool + per-option re-verification of generated-code contracts + bounded file comparison",
 )
